@@ -381,12 +381,17 @@ def cases(draw, analysis, precision, large=False):
         tdt = 'uint8'
         bkind = 'default'
     # frame
-    fk = draw(st.sampled_from(['none', 'none', 'slice', 'list', 'ndarray', 'range'])) if not large else 'none'
+    fk = draw(st.sampled_from(['none', 'none', 'slice', 'list', 'ndarray', 'range', 'mask'])) if not large else 'none'
     if fk == 'none':
         frame = None
     elif fk == 'slice':
         a_ = draw(st.integers(0, L - 2))
         frame = slice(a_, draw(st.integers(a_ + 2, L)), draw(st.sampled_from([None, 1, 2])))
+    elif fk == 'mask':
+        # a boolean mask over the samples (at least two selected)
+        m_ = g.integers(0, 2, size=L).astype(bool)
+        m_[[int(v) for v in g.choice(L, size=2, replace=False)]] = True
+        frame = m_
     elif fk == 'range':
         a_ = draw(st.integers(0, L - 2))
         frame = range(a_, draw(st.integers(a_ + 2, L)), draw(st.sampled_from([1, 2, 3])))
